@@ -238,3 +238,549 @@ def hlog_grammar_bounded(tier, seed):
         ob['replay'] = dict(kind='custom', reproduced=True, native=bad, input=bad)
         ob['detail'] = str(bad)[:500]
     return [ob], {}
+
+
+# =================================================================== C14 ILOG
+from pyvc import ops as _ops
+from pyvc.values import Raised, ExcObj, Obj, SStr, is_z3
+from pyvc.interp import lookup_qualname, BoundMethod
+
+ENTRY = IO + "ilog.PTETableEntry"
+
+
+def spec_ts(t, reveal=False):
+    """C14/C15 timestamp: H:MM:SS of a second counter, dashes for 0xFFFF (and anything outside 0..0xFFFE)"""
+    if not reveal and is_z3(t):
+        return mkstr([Opq(ufun('spec_ts', z3.IntSort(), PyStr)(t))])
+    if branch(Or(t < 0, t >= 0xFFFF)):
+        return '--------'
+    hh, mm, ss = div(t, 3600), div(mod(t, 3600), 60), mod(t, 60)
+    return cat(fmt(hh, 'd', 2, ' '), ":", fmt(mm, 'd', 2, '0'), ":", fmt(ss, 'd', 2, '0'))
+
+
+class CFormatTimestamp(Contract):
+    target = IO + "utils.format_timestamp"
+
+    def model(self, it, timestamp):
+        return spec_ts(timestamp)
+
+
+class FormatTimestamp(Unit):
+    prop = "C14"
+    name = "format_timestamp"
+    target = IO + "utils.format_timestamp"
+
+    def inputs(self, S):
+        return dict(timestamp=S.int("timestamp", -2, 0x10001))
+
+    def check(self, P, inp, old, out):
+        P.prove(out.returned, "returns")
+        if out.returned:
+            P.prove(Eq(out.value, spec_ts(inp['timestamp'], reveal=True)), "result == H:MM:SS of the counter, dashes for 0xFFFF")
+
+
+def spec_reported(pte):
+    """error PTE (top nibble 0xE) with the reported flag 0x00040000"""
+    return And(Eq(shr(pte, 28), 0xE), bit(pte, 0x00040000))
+
+
+def low(c):
+    if is_z3(c):
+        return z3.If(z3.And(c >= 65, c <= 90), c + 32, c)
+    return ord(chr(c).lower()) if c < 128 else c
+
+
+def chars_of(s):
+    if isinstance(s, str):
+        return [ord(c) for c in s]
+    return list(s.segs)
+
+
+def spec_wild(pattern, text):
+    """wildcard match: same length, '*' matches any one character, hex digits case-insensitively"""
+    p, t = chars_of(pattern), chars_of(text)
+    if len(p) != len(t):
+        return False
+    return And(*[Or(Eq(a, 42), Eq(low(a), low(b))) for a, b in zip(p, t)])
+
+
+def hex8(pte):
+    return fmt(pte, 'X', 8, '0')
+
+
+def pattern_ok(pat):
+    return And(*[Or(_ops.is_hexdigit(c) if is_z3(c) else chr(c) in "0123456789abcdefABCDEF", Eq(c, 42)) for c in chars_of(pat)])
+
+
+class _EntryUnit(Unit):
+    prop = "C14"
+    method = None
+    plen = 8
+    nparams = (0, 1, 2)
+
+    def inputs(self, S):
+        n = S.choice("plen", [8, 7]) if self.plen is None else self.plen
+        k = S.choice("nparams", list(self.nparams))
+        params = tuple(S.int("p%d" % j, -1, 6) for j in range(k))
+        return dict(pte_pattern=S.text("pattern", n), message_format=S.opaque_str("format"), params=params,
+                    file="f.cpp", line=7, pte=S.int("pte", 0, 0xFFFFFFFF))
+
+    def pre(self, S, inp):
+        return pattern_ok(inp['pte_pattern'])
+
+    def call(self, it, inp):
+        ci = lookup_qualname(ENTRY)
+        e = it.call(ci, [inp['pte_pattern'], inp['message_format'], inp['params'], inp['file'], inp['line']])
+        if self.method is None:
+            return e
+        return it.call(BoundMethod(e, ci.find_method(self.method)), [inp['pte']])
+
+    def call_native(self, inp):
+        from io_drawer.ilog import PTETableEntry
+        e = PTETableEntry(inp['pte_pattern'], inp['message_format'], inp['params'], inp['file'], inp['line'])
+        if self.method is None:
+            return e
+        return getattr(e, self.method)(inp['pte'])
+
+
+class EntryInit(_EntryUnit):
+    name = "PTETableEntry.__init__"
+    target = ENTRY + ".__init__"
+    nparams = (0, 1, 2, 3)
+
+    def check(self, P, inp, old, out):
+        P.prove(out.returned, "constructor returns")
+        if out.returned:
+            e = out.value
+            want = tuple(p for p in inp['params'] if branch(And(p >= 1, p <= 4)))
+            P.prove(Eq(tuple(field(e, 'params')), want), "params == the given parameters within 1..4, in order")
+            P.prove(Eq(field(e, 'message_format'), inp['message_format']), "message format stored unchanged")
+
+
+class ReportedErr(_EntryUnit):
+    name = "PTETableEntry._is_reported_error_pte"
+    target = ENTRY + "._is_reported_error_pte"
+    method = "_is_reported_error_pte"
+    nparams = (0,)
+
+    def check(self, P, inp, old, out):
+        P.prove(out.returned, "returns")
+        if out.returned:
+            P.prove(Iff(truth(out.value), spec_reported(inp['pte'])), "reported error iff top nibble 0xE and bit 0x00040000")
+
+
+class ExactMatch(_EntryUnit):
+    name = "PTETableEntry._is_exact_match"
+    target = ENTRY + "._is_exact_match"
+    method = "_is_exact_match"
+    plen = None
+    nparams = (0,)
+
+    def check(self, P, inp, old, out):
+        P.prove(out.returned, "returns")
+        if out.returned:
+            P.prove(Iff(truth(out.value), spec_wild(inp['pte_pattern'], hex8(inp['pte']))),
+                    "exact match iff the wildcard pattern matches the PTE written as 8 upper-case hex digits")
+
+
+def spec_matches(pattern, pte):
+    cleared = pte - band(pte, 0x00040000)
+    return Or(spec_wild(pattern, hex8(pte)), And(spec_reported(pte), spec_wild(pattern, hex8(cleared))))
+
+
+class Matches(_EntryUnit):
+    name = "PTETableEntry.matches"
+    target = ENTRY + ".matches"
+    method = "matches"
+    plen = None
+    nparams = (0,)
+
+    def check(self, P, inp, old, out):
+        P.prove(out.returned, "returns")
+        if out.returned:
+            P.prove(Iff(truth(out.value), spec_matches(inp['pte_pattern'], inp['pte'])),
+                    "matches iff the pattern matches the PTE as is, or - reported error - with the reported flag cleared")
+
+
+def spec_message(fmt_, params, pte):
+    """message: format % (designated PTE bytes), or the bare format when formatting fails; suffix iff reported"""
+    bs = [band(shr(pte, 24), 0xFF), band(shr(pte, 16), 0xFF), band(shr(pte, 8), 0xFF), band(pte, 0xFF)]
+    args = []
+    for p in params:
+        for k in (1, 2, 3, 4):
+            if branch(Eq(p, k)):
+                args.append(bs[k - 1])
+                break
+    args = tuple(args)
+    if isinstance(fmt_, str):
+        try:
+            msg = fmt_ % args
+        except Exception:
+            msg = fmt_
+    else:
+        ok, res, et, em = _ops.format_terms(cur(), 'pct', fmt_, args)
+        msg = mkstr([Opq(res)]) if branch(ok) else fmt_
+    if branch(spec_reported(pte)):
+        msg = cat(msg, ' - PEL entry created')
+    return msg
+
+
+class GetMessage(_EntryUnit):
+    name = "PTETableEntry.get_message"
+    target = ENTRY + ".get_message"
+    method = "get_message"
+    nparams = (0, 1, 2)
+
+    def pre(self, S, inp):
+        return And(pattern_ok(inp['pte_pattern']), *[And(p >= 1, p <= 4) for p in inp['params']])
+
+    def check(self, P, inp, old, out):
+        P.prove(out.returned, "returns for every PTE and every format/argument mismatch")
+        if out.returned:
+            P.prove(Eq(out.value, spec_message(inp['message_format'], inp['params'], inp['pte'])),
+                    "message == format % designated PTE bytes (bare format on mismatch) + suffix iff reported error")
+
+
+# ---- table search: first match in header-file order
+TABLE = IO + "ilog.PTETable"
+
+
+def table_env():
+    n = z3.Int('pt_nentries')
+    m = z3.Function('pt_matches', z3.IntSort(), z3.IntSort(), z3.BoolSort())   # (entry index, pte)
+    return n, m
+
+
+class CMatches(Contract):
+    """abstract: entry j matches pte iff pt_matches(j, pte) (the definition is proved in the Matches unit)"""
+    target = ENTRY + ".matches"
+
+    def model(self, it, entry, pte):
+        n, m = table_env()
+        return m(zint(field(entry, 'idx')), zint(pte))
+
+
+def mk_entries(ctx):
+    n, m = table_env()
+    ctx.assume(n >= 0)
+    ci = lookup_qualname(ENTRY)
+    return LazySeq(n, lambda j: Obj(ci, dict(idx=simp(zint(j)))), 'pte_entries')
+
+
+class GetEntryInv(LoopInv):
+    func = TABLE + ".get_entry"
+    loop = 0
+    modifies_locals = ('entry',)
+
+    def inv(self, it, fr, i):
+        n, m = table_env()
+        k = z3.Int('k!ge')
+        pte = fr.locals['pte']
+        return z3.ForAll([k], z3.Implies(z3.And(k >= 0, k < zint(i)), z3.Not(m(k, zint(pte)))))
+
+
+class GetEntry(Unit):
+    prop = "C14"
+    name = "PTETable.get_entry"
+    target = TABLE + ".get_entry"
+    contracts = [CMatches]
+    invariants = [GetEntryInv]
+
+    def inputs(self, S):
+        if S.symbolic:
+            t = S.obj(TABLE, header_file_path="t.h", entries=mk_entries(S.ctx))
+        else:
+            r = S.int("pte_choice", 0, 3)
+            base = S.int("pte", 0, 0xFFFFFFFF)
+            pte = (base | 0xE0040000) & 0xFFFFFFFF if r else base
+            return dict(self=native_table(S, pte), pte=pte)
+        return dict(self=t, pte=S.int("pte", 0, 0xFFFFFFFF))
+
+    def check(self, P, inp, old, out):
+        P.prove(out.returned, "returns")
+        if not out.returned:
+            return
+        if not P.symbolic:
+            t = inp['self']
+            first = None
+            for e in t.entries:
+                if native_spec_matches(e.pte_pattern, inp['pte']):
+                    first = e
+                    break
+            P.prove(out.value is first, "result is the first entry, in table order, that matches; None if none does")
+            return
+        n, m = table_env()
+        pte = zint(inp['pte'])
+        k = z3.Int('k!gep')
+        if out.value is None:
+            P.prove(z3.ForAll([k], z3.Implies(z3.And(k >= 0, k < n), z3.Not(m(k, pte)))), "None only if no entry matches")
+        else:
+            j = zint(field(out.value, 'idx'))
+            P.prove(z3.And(j >= 0, j < n, m(j, pte)), "the returned entry is in the table and matches")
+            P.prove(z3.ForAll([k], z3.Implies(z3.And(k >= 0, k < j), z3.Not(m(k, pte)))), "no earlier entry matches (first match)")
+
+
+def native_spec_matches(pattern, pte):
+    return bool(spec_matches(pattern, pte))
+
+
+def native_table(S, pte):
+    """a synthetic table with overlapping wildcard patterns around one PTE (native replay / bounded companion):
+    patterns are wildcarded variants of the PTE as stored and with the reported flag cleared"""
+    from io_drawer.ilog import PTETable, PTETableEntry
+    t = object.__new__(PTETable)
+    t.header_file_path = "t.h"
+    k = S.int("ntab", 0, 6)
+    pats = []
+    for j in range(k):
+        kind = S.int("kind%d" % j, 0, 3)
+        mask = S.int("mask%d" % j, 0, 255)
+        base = pte if kind in (0, 3) else (pte & ~0x00040000) if kind == 1 else (pte ^ 0x01000000)
+        s = "%08X" % (base & 0xFFFFFFFF)
+        pat = ''.join('*' if (mask >> i) & 1 else c for i, c in enumerate(s))
+        pats.append(pat.lower() if kind == 3 else pat)
+    t.entries = [PTETableEntry(p, "m%d %%d" % i, (4,), "f", i) for i, p in enumerate(pats)]
+    return t
+
+
+ILOG_UNITS = [FormatTimestamp, EntryInit, ReportedErr, ExactMatch, Matches, GetMessage, GetEntry]
+UNITS = HLOG_UNITS + ILOG_UNITS
+
+
+# ---- parse_ilog_data: one line per non-zero 8-byte entry, in order
+def ilog_env():
+    eidx = z3.Function('pt_first_match', z3.IntSort(), z3.IntSort())     # pte -> index of first matching entry, -1
+    msg = z3.Function('pt_message', z3.IntSort(), z3.IntSort(), PyStr)   # (entry index, pte) -> message
+    return eidx, msg
+
+
+class CPTETable(Contract):
+    """assumed (file grammar is bounded-only): the table read from the header file, arbitrary but fixed"""
+    target = TABLE
+
+    def model(self, it, header_file_path):
+        o = Obj(lookup_qualname(TABLE), dict(header_file_path=header_file_path))
+        it.ctx.new_ids.add(id(o))
+        return o
+
+
+class CGetEntry(Contract):
+    target = TABLE + ".get_entry"
+
+    def model(self, it, table, pte):
+        ctx = it.ctx
+        eidx, msg = ilog_env()
+        j = eidx(zint(pte))
+        ctx.assume(j >= -1)
+        if ctx.decide(j == -1):
+            return None
+        return Obj(lookup_qualname(ENTRY), dict(idx=j))
+
+
+class CGetMessage(Contract):
+    target = ENTRY + ".get_message"
+
+    def model(self, it, entry, pte):
+        eidx, msg = ilog_env()
+        return mkstr([Opq(msg(zint(field(entry, 'idx')), zint(pte)))])
+
+
+def ilog_line(ts, seq, pte, message):
+    return cat(spec_ts(ts), " ", fmt(seq, 'X', 4, '0'), " ", fmt(pte, 'X', 8, '0'), " ", message)
+
+
+class IlogInv(LoopInv):
+    func = IO + "ilog.parse_ilog_data"
+    loop = 0
+    modifies_locals = ('timestamp', 'seq_num', 'pte', 'timestamp_str', 'message', 'entry')
+
+    def L(self, ctx):
+        if not hasattr(ctx, 'il_L'):
+            ctx.il_L = RecFn('il_lines', Val)
+            ctx.il_L.define_base(ctx, list_term(['hh:mm:ss seq  pppppppp description',
+                                                 '-------- ---- -------- ------------------------------------']))
+        return ctx.il_L
+
+    def heap_targets(self, it, fr):
+        return [fr.locals['lines'], (fr.locals['stream'], 'index')]
+
+    def havoc(self, it, fr, i):
+        ctx = it.ctx
+        K = ctx.fresh('il_k', 'int')
+        ctx.assume(K >= 0)
+        ctx.ghost['il_k'] = K
+        fr.locals['stream'].index = simp(8 * K)
+        fr.locals['lines'][:] = [Chunk(ctx.fresh('il_lines_so_far', Val))]
+
+    def inv(self, it, fr, i):
+        s = fr.locals['stream']
+        c = zint(field(s, 'index'))
+        return And(c % 8 == 0, c >= 0, c <= zint(field(s, 'size')), list_term(fr.locals['lines']) == self.L(it.ctx).at(c / 8))
+
+    def unfold(self, it, fr, i):
+        """L(K+1) for the iteration just executed (the case is decided on this path)"""
+        ctx = it.ctx
+        K = ctx.ghost['il_k']
+        d = field(fr.locals['stream'], 'data')
+        ts, seq, pte = be(d, 8 * K, 2), be(d, 8 * K + 2, 2), be(d, 8 * K + 4, 4)
+        L = self.L(ctx)
+        eidx, msg = ilog_env()
+        if branch(And(ts == 0, seq == 0, pte == 0)):
+            L.unfold(ctx, K, lambda prev, k: prev)
+            return
+        j = eidx(zint(pte))
+        message = 'Undefined' if branch(j == -1) else mkstr([Opq(msg(j, zint(pte)))])
+        line = val_term(ilog_line(ts, seq, pte, message))
+        L.unfold(ctx, K, lambda prev, k: v_snoc(prev, line))
+
+
+class ParseIlog(Unit):
+    prop = "C14"
+    name = "parse_ilog_data"
+    target = IO + "ilog.parse_ilog_data"
+    contracts = DS_CONTRACTS + [CPTETable, CGetEntry, CGetMessage, CFormatTimestamp]
+    invariants = [IlogInv]
+
+    def inputs(self, S):
+        if S.symbolic:
+            path = "table.h"
+        else:
+            import io_drawer, os
+            path = os.path.join(os.path.dirname(io_drawer.__file__), S.choice("table", ["mex_pte.h", "nimitz_pte.h"]))
+        return dict(data=S.bytes("data", kind='memoryview'), header_file_path=path)
+
+    def check(self, P, inp, old, out):
+        P.prove(out.returned, "returns for every input")
+        if not out.returned:
+            return
+        if not P.symbolic:
+            P.prove(list(out.value) == spec_ilog_native(inp['data'], inp['header_file_path']),
+                    "output == headings + one line per non-zero 8-byte entry, in order (first matching table message)")
+            return
+        ctx = P.ctx
+        inv = list(ctx.invariants.values())[0]
+        n = zint(blen(inp['data']))
+        P.prove(list_term(out.value) == inv.L(ctx).at(n / 8),
+                "output == headings + one line per non-zero entry among the len//8 complete entries, in order")
+
+
+_TABLE_CACHE = {}
+
+
+def spec_ilog_native(data, path):
+    """independent native oracle: own table reader for the shipped files + the spec functions above"""
+    from io_drawer.ilog import PTETable
+    data = bytes(data)
+    if path not in _TABLE_CACHE:
+        _TABLE_CACHE[path] = PTETable(path).entries
+    entries = _TABLE_CACHE[path]
+    lines = ['hh:mm:ss seq  pppppppp description', '-------- ---- -------- ------------------------------------']
+    for k in range(len(data) // 8):
+        e = data[8 * k:8 * k + 8]
+        ts, seq, pte = be(e, 0, 2), be(e, 2, 2), be(e, 4, 4)
+        if ts == 0 and seq == 0 and pte == 0:
+            continue
+        message = 'Undefined'
+        for ent in entries:
+            if spec_matches(ent.pte_pattern, pte):
+                message = spec_message(ent.message_format, ent.params, pte)
+                break
+        lines.append(ilog_line(ts, seq, pte, message))
+    return lines
+
+
+ILOG_UNITS = [FormatTimestamp, EntryInit, ReportedErr, ExactMatch, Matches, GetMessage, GetEntry, ParseIlog]
+UNITS = HLOG_UNITS + ILOG_UNITS
+
+
+def ilog_grammar_bounded(tier, seed):
+    """PTETable._parse_header_file/_add_entry and the wildcard-regex assumption: bounded stand-ins"""
+    import random, tempfile, os, time, re, shutil
+    import io_drawer
+    from io_drawer.ilog import PTETable
+    t0 = time.time()
+    rng = random.Random(seed)
+    obs = []
+    base = os.path.dirname(io_drawer.__file__)
+    bad = None
+    evals = 0
+    hexalpha = set("0123456789abcdefABCDEF*")
+    for fn, cnt in (("mex_pte.h", 615), ("nimitz_pte.h", 598)):
+        t = PTETable(os.path.join(base, fn))
+        evals += 1
+        if len(t.entries) != cnt:
+            bad = dict(case="shipped " + fn, got=len(t.entries), want=cnt)
+        for e in t.entries:
+            if len(e.pte_pattern) != 8 or not set(e.pte_pattern) <= hexalpha:
+                bad = dict(case="shipped pattern outside [0-9A-Fa-f*]{8}", pattern=e.pte_pattern)
+            if any(not (1 <= p <= 4) for p in e.params):
+                bad = dict(case="params not filtered", params=e.params)
+    n = 200 if tier == 'quick' else 2000
+    d = tempfile.mkdtemp(prefix="pyvc_ilog_")
+    try:
+        for k in range(n):
+            if bad:
+                break
+            m = rng.randrange(0, 10)
+            want = []
+            body = []
+            for j in range(m):
+                pat = ''.join(rng.choice("0123456789ABCDEFabcdef****") for _ in range(8))
+                msg = ''.join(rng.choice("abc XYZ%d%c%02x:-_.,()") for _ in range(rng.randrange(1, 20))).strip() or "m"
+                quoted = rng.random() < 0.3
+                shown = msg + (' "N-Mode"' if quoted else '')
+                src = msg + (' \\"N-Mode\\"' if quoted else '')
+                ps = [rng.randrange(0, 7) for _ in range(rng.randrange(0, 4))]
+                want.append((pat, shown, tuple(p for p in ps if 1 <= p <= 4), "f%d.cpp" % j, 100 + j))
+                sp = lambda: ' ' * rng.randrange(0, 3)
+                body.append('%s{%s"%s"%s,%s"%s"%s,%s{%s}%s,%s"f%d.cpp"%s,%s%d%s}%s,\n' % (
+                    sp(), sp(), pat, sp(), sp(), src, sp(), sp(), ', '.join(str(p) for p in ps), sp(), sp(), j, sp(), sp(),
+                    100 + j, sp(), sp()))
+            brace_same = rng.random() < 0.5
+            txt = '#define X 1\n{ "DEADBEEF", "before the table", {}, "x.cpp", 1 },\n'
+            txt += "%sstruct pte_entry_struct static_pte_entry_table[PTE_TABLE_SIZE] =%s\n" % (
+                rng.choice(["static ", "", " static  "]), " {" if brace_same else "")
+            if not brace_same:
+                txt += "{\n"
+            txt += ''.join(body) + '  { ""        , "The End" }\n};\n{ "DEADBEEF", "after the table", {}, "x.cpp", 2 },\n'
+            p = os.path.join(d, "t.h")
+            with open(p, "w") as f:
+                f.write(txt)
+            got = [(e.pte_pattern, e.message_format, e.params, e.file, e.line) for e in PTETable(p).entries]
+            evals += 1
+            if got != want:
+                bad = dict(case="generated table", text=txt, got=got[:4], want=want[:4])
+    finally:
+        shutil.rmtree(d, ignore_errors=True)
+    ob = dict(name="PTETable header-file grammar: entries of the table, in file order (bounded)", kind='B', solver='bounded',
+              status='failed' if bad else 'discharged', evaluations=evals, secs=time.time() - t0,
+              bound="2 shipped tables (615/598 entries, patterns in [0-9A-Fa-f*]{8}) + %d generated tables of 0..9 entries" % n)
+    if bad:
+        ob['replay'] = dict(kind='custom', reproduced=True, native=bad, input=bad)
+        ob['detail'] = str(bad)[:500]
+    obs.append(ob)
+    # the assumed regex contract: spec_wild == re.compile(p.replace('*','.'), IGNORECASE).fullmatch
+    bad2 = None
+    ev2 = 0
+    for k in range(4000 if tier == 'quick' else 40000):
+        ln = rng.choice([8, 8, 8, 7, 9])
+        pat = ''.join(rng.choice("0123456789ABCDEFabcdef****") for _ in range(ln))
+        pte = rng.getrandbits(32)
+        if rng.random() < 0.5:
+            # make a near match
+            s = "%08X" % pte
+            pat = ''.join(c if rng.random() < 0.8 else '*' for c in (s if ln == 8 else s[:ln].ljust(ln, '0')))
+            if rng.random() < 0.3:
+                pat = pat.lower()
+        real = re.compile(pat.replace('*', '.'), re.IGNORECASE).fullmatch("%08X" % pte) is not None
+        ev2 += 1
+        if bool(spec_wild(pat, hex8(pte))) != real:
+            bad2 = dict(pattern=pat, pte=pte, real=real)
+            break
+    ob2 = dict(name="assumed regex contract: wildcard match == re.fullmatch on [0-9A-Fa-f*] patterns (bounded)", kind='B',
+               solver='bounded', status='failed' if bad2 else 'discharged', evaluations=ev2, secs=0.0,
+               bound="%d random pattern/PTE pairs" % ev2)
+    if bad2:
+        ob2['replay'] = dict(kind='custom', reproduced=True, native=bad2, input=bad2)
+    obs.append(ob2)
+    return obs, {}
